@@ -607,6 +607,19 @@ example : ((InfL.new 3 3 (1/4, 1/2) (1/4, -1/2) ⟨1, 10⟩ 7).evolveWith sideX 
     = (InfL.new 3 3 (1/4, 1/2) (1/4, -1/2) ⟨1, 10⟩ 7).screen[1 * 3 + 0]? := by decide +kernel
 
 
+/-- **Sub-pixel offset: the decomposition of the centre** (`_partial`: the interpolation operator itself is not
+modelled — the read-out `affine_transform(screen, offset = (−sub/δ)[::-1])` is compared with SciPy by the harness).
+After every `evolve_until` the accumulated displacement is split exactly into the whole pixels the screen has been
+extruded by and the offset handed to the interpolation: `centre = pixel·δ + sub` per axis, each axis with its own
+pixel size; and the whole-pixel part is what `evolve_translates` moves the samples by. -/
+theorem subpixel_offset_decomposition_partial (L : InfL) (t : Rat) :
+    let L' := L.evolveWith sideX sideY t
+    L'.center.1 = pixel L'.center.1 L.delta.1 * L.delta.1 + L'.sub.1 ∧
+    L'.center.2 = pixel L'.center.2 L.delta.2 * L.delta.2 + L'.sub.2 ∧
+    L'.center = (L.center.1 + L.vel.1 * (t - L.t), L.center.2 + L.vel.2 * (t - L.t)) := by
+  simp only [InfL.evolveWith]
+  refine ⟨by ring, by ring, trivial⟩
+
 /-! ## Generators as heap cells: `deepcopy`, aliasing, a caller-owned generator
 
 `Model/LayerHeap.lean`: the generators live in cells, the layer holds handles, `copy.deepcopy` allocates.  Here a
